@@ -23,7 +23,9 @@ from .common import load_repo
 class Inst:
     """what a property module returns for one instance description"""
 
-    def __init__(self, declare, emit, pred, classify=None, expected_exception=None, ghost=None):
+    def __init__(self, declare, emit, pred, classify=None, expected_exception=None, ghost=None, alphas=None):
+        self.alphas = alphas      # optional explicit list of assignments (for instances too large to
+                                  # enumerate: structured 'deep' patterns such as long chains)
         self.ghost = ghost        # optional: ret_terms -> list of (payload, z3 formula): extra patterns over
                                   # returned/auxiliary values (e.g. "group ids realise this partition");
                                   # pred is then called as pred(alpha, payload)
@@ -100,6 +102,8 @@ def run_instance(rep, prop, desc, inst, max_patterns=1 << 17, only_alpha=None):
         if isinstance(only_alpha, dict):
             only_alpha = only_alpha["alpha"]
         alphas = [tuple(only_alpha)]
+    elif inst.alphas is not None:
+        alphas = [tuple(a) for a in (inst.alphas(caller) if callable(inst.alphas) else inst.alphas)]
     elif total <= max_patterns:
         alphas = itertools.product(*doms)
     else:
@@ -180,6 +184,29 @@ def run_parallel(rep, prop, modname, descs, max_patterns=1 << 17, nproc=16):
     nchunks = min(len(descs), nproc * 4)
     chunks = [descs[i::nchunks] for i in range(nchunks)]
     tasks = [(modname, prop, c, rep.tier, rep.seed, max_patterns) for c in chunks]
+    # history tasks: the emitter must depend on its arguments only (no state carried from earlier
+    # calls in the same process): all instances once more inside ONE process, forwards and backwards,
+    # grid/frame instances followed by their transposes, on a sample of the patterns
+    def _t(d):
+        d2 = dict(d)
+        for k in ("grid", "frame"):
+            if k in d2:
+                d2[k] = [d2[k][1], d2[k][0]]
+        return d2
+    hist = [d for d in descs if ("grid" in d or "frame" in d)]
+    hist = hist[:: max(1, len(hist) // 60)]
+    seqs = []
+    if hist:
+        seq = []
+        for d in hist:
+            seq += [d, _t(d), d]
+        seqs = [seq, list(reversed(seq))]
+    others = [d for d in descs if not ("grid" in d or "frame" in d)]
+    others = others[:: max(1, len(others) // 150)]
+    if others:
+        seqs += [others + list(reversed(others))]
+    tasks += [(modname, prop, sq, rep.tier, rep.seed, 192) for sq in seqs]
+    rep.coverage["history_sequences"] = [len(sq) for sq in seqs]
     seen = set(v["signature"] for v in rep.violations)
     with ProcessPoolExecutor(nproc) as ex:
         for r in ex.map(_worker, tasks):
